@@ -12,7 +12,7 @@ COMMON_ASSUMPTIONS = [
 CODECS = ['dna', 'iupac', 'amino', 'text', 'masked_dna', 'masked_iupac', 'degenerate']
 
 INDEX = ['index.range', 'index.rangeto', 'index.rangetoincl', 'index.rangeincl', 'index.rangefrom', 'index.rangefull', 'index.usize']
-REMOVE = ['seq.remove.' + r for r in ['range', 'rangeto', 'rangetoincl', 'rangeincl', 'rangefrom', 'rangefull']]
+REMOVE = ['seq.remove.' + r for r in ['range', 'rangeto', 'rangetoincl', 'rangeincl', 'rangefrom', 'rangefull', 'boundpair']]
 KANI_NOTE = 'trusts Kani/CBMC and the documented-alphabet oracles in laws/laws.rs (written from the module docs, IUPAC standard and NCBI table 1)'
 B_NOTE = 'assumes the bitvec contracts of layer B (external_body shims, sanity-checked natively but not proved), the repr(transparent) cast (R5) and the Codec laws proved per codec by Kani'
 
@@ -70,7 +70,7 @@ PROPS = {
     ),
     'C06': dict(
         level='proof',
-        level_text='Verus proves for push, clear, truncate, append, prepend, insert, remove (all six RangeBounds forms) and clone that the representation invariant is kept and the whole symbol list equals the corresponding list operation (untouched positions pinned); any finite edit history follows by modularity',
+        level_text='Verus proves for push, clear, truncate, append, prepend, insert, remove (all six std range types and the general (Bound, Bound) pair form) and clone that the representation invariant is kept and the whole symbol list equals the corresponding list operation (untouched positions pinned); any finite edit history follows by modularity',
         level_note=B_NOTE + '; Rust ownership gives value independence of clones; extend/FromIterator are iterator glue covered by a bounded stand-in (labelled bounded)',
         technique='deductive verification (Verus): data structure against an abstract list view',
         verus=[
